@@ -14,6 +14,12 @@
 (* Actions: JjSet/JjDelete, OtherSet/OtherDelete (the other clone pushes),  *)
 (* Fetch (jj refreshes track and merges into local), Push(S).               *)
 (*                                                                          *)
+(* Many-refs dimension: a push may carry any number of further ("filler")  *)
+(* bookmarks that are in sync with the remote; they never diverge, so they  *)
+(* are a constant of a behaviour (MC_GitPush!fill), not state.  PushOK is   *)
+(* stated per bookmark and does not depend on how many refs travel in the   *)
+(* same push or at which position a bookmark is passed to git.              *)
+(*                                                                          *)
 (* REFERENCE TRANSCRIPTION: PushAsked, PushF, FetchF.                       *)
 (* CONTRACTS: PushOK, FetchOK, PFrameOK - only these judge.                 *)
 EXTENDS GitSync
